@@ -72,6 +72,27 @@ impl Certificate {
 		Err(format!("{identifier}: identifier not found").into())
 	}
 
+	/// Returns the configured identifier an authorization is for: the wildcard
+	/// entry for a wildcard authorization, the exact entry otherwise.
+	pub fn get_identifier_for_authorization(
+		&self,
+		value: &str,
+		wildcard: bool,
+	) -> Result<Identifier, Error> {
+		let name = if wildcard {
+			format!("*.{value}")
+		} else {
+			value.to_string()
+		};
+		for d in self.identifiers.iter() {
+			if d.value == name {
+				return Ok(d.clone());
+			}
+		}
+		// The CA did not tell which of the name and its wildcard it wants to be proven.
+		self.get_identifier_from_str(value)
+	}
+
 	fn renew_in(&self, cert: &X509Certificate) -> Result<Duration, Error> {
 		let expires_in = cert.expires_in()?;
 		self.debug(&format!(
@@ -142,12 +163,12 @@ impl Certificate {
 		file_name: &str,
 		proof: &str,
 		raw_proof: Option<String>,
-		identifier: &str,
+		identifier: &Identifier,
+		identifier_value: &str,
 	) -> Result<(ChallengeHookData, HookType), Error> {
-		let identifier = self.get_identifier_from_str(identifier)?;
 		let mut hook_data = ChallengeHookData {
 			challenge: identifier.challenge.to_string(),
-			identifier: identifier.value.to_owned(),
+			identifier: identifier_value.to_owned(),
 			identifier_tls_alpn: identifier.get_tls_alpn_name().unwrap_or_default(),
 			file_name: file_name.to_string(),
 			proof: proof.to_string(),
